@@ -1428,10 +1428,14 @@ class CloneAnalysis:
                             self.early.append((stt, body[0]))         # `new = WBS(); ...; if <cond>: return new`
         self._early_ids = {id(i.test) for i, _ in self.early}
         self._pending_cov: List[tuple] = []
+        self.registrations: List[tuple] = []        # (function, construct node, [relations scanned]) non-clones put into the clone map
+        self._identity_rels: Dict[str, ast.AST] = {}    # dependency relations rebuilt as `x if <x outside> else map[x.id]` (fully ok)
+        self._identity_seen = set()                 # ... element recognised (filter possibly wrong)
+        self._lookup_rels: Dict[str, ast.AST] = {}  # dependency relations rebuilt as `map[x.id] ... if x.id in map`
         self.staging_calls: List[tuple] = []        # (call, helper, accumulator) of helpers that build the outside-task dict
         self.setdefaults: List[tuple] = []          # (function, labeller, call)
         self.helpers: List[tuple] = []              # (helper function, labeller) that receive the clone map
-        for name in ('map', 'externals', 'relations', 'assembly', 'wbs_attrs', 'no_source_writes', 'once', 'fields'):
+        for name in ('map', 'externals', 'relations', 'outside_identity', 'assembly', 'wbs_attrs', 'no_source_writes', 'once', 'fields'):
             self.clause = name.replace('_', '-')
             getattr(self, '_' + name)()
 
@@ -1884,6 +1888,8 @@ class CloneAnalysis:
             k, v = L.expand(karg, cn), L.expand(varg, cn)
             mk = match("$x.id", k)
             vl = L.lab(v, cn, {})
+            reg = [f, call, [], isinstance(call, ast.Call)]
+            self.registrations.append(reg)
             if vl.kind in ('SRC', 'SELF', 'SRCS', 'MEMBERS', 'SRCMAP'):
                 self.refute(f, call, call, f"`{src(call)}` puts `{src(v)}`, an object of the source side that is NOT tested to be outside, "
                                            f"into the clone map as a non-copy: the rebuilt relations of the copy then point into the source WBS")
@@ -1966,6 +1972,8 @@ class CloneAnalysis:
                         partial.setdefault(r, (where, full_selection(tl)))
                 for _, r in rel:
                     self.site(f, call, note + f" for x in <selected>.{r}")
+                    if r not in reg[2]:
+                        reg[2].append(r)
             else:
                 unknown_cov = True
                 self.site(f, call, note)
@@ -2084,7 +2092,12 @@ class CloneAnalysis:
         self._good = {}
         self._relations_inner()
         f = self.f
+        for r, st_ in self._identity_rels.items():
+            self.site(f, st_, f"outside {r} are handed to the copy as themselves under `x.wbs != self` (no id-keyed registration needed)",
+                      'externals')
         for r, why in self._pending_cov:
+            if r in self._identity_seen:
+                continue
             if r in self._good:
                 self.refute(f, f.node, f"outside {r}", f"no `setdefault(x.id, x)` under `x.wbs != self` scans the {r} of every "
                                                        f"selected task{why}: {r} that live outside the source WBS never enter the clone "
@@ -2337,7 +2350,12 @@ class CloneAnalysis:
         g = comp.generators[0]
         x = g.target.id
         # ---- provenance of the elements
-        lk = self._map_lookup(L, comp.elt)
+        ident = self._identity_element(L, comp.elt, x, st, rel) if rel in DEP_RELS else None
+        if ident == 'bad':
+            return False
+        lk = ident[0] if ident else self._map_lookup(L, comp.elt)
+        if ident:
+            self._identity_seen.add(rel)
         if lk is None or not match(f"{x}.id", lk[0]):
             el = L.lab(comp.elt, cn, {x: Lab('LINK')})
             if isinstance(comp.elt, ast.Name) and comp.elt.id == x or el.kind in SOURCEISH:
@@ -2350,7 +2368,8 @@ class CloneAnalysis:
             else:
                 self.undecided(f, st, st, f"element `{sh(comp.elt)[:60]}` of the rebuilt `{rel}` is not `map[x.id]`", 'receivers')
             return False
-        self.site(f, st, f"copy.{rel} = [map[x.id] for x in ...]", 'receivers')
+        self.site(f, st, f"copy.{rel} = [x if x.wbs != self else map[x.id] for x in ...]" if ident else
+                  f"copy.{rel} = [map[x.id] for x in ...]", 'receivers')
         # ---- faithfulness: same relation of the same task, order, filters
         it, bad = strip_seq_wrappers(g.iter)
         if bad:
@@ -2379,7 +2398,27 @@ class CloneAnalysis:
         if sl.origin is None or sl.origin != origin:
             rel_bad('refute', f"`{rel}` of the copy of one task is rebuilt from another task's list (`{sh(it)[:60]}`)")
         has_in = False
-        for c in list(g.ifs) + pre_ifs:
+        if ident:
+            # outside tasks as themselves, selected members as their clones, unselected members dropped:
+            # the filter must be equivalent to  <x outside>  or  x.id in <clone map>
+            has_in = True
+            v = self._keep_formula(L, list(g.ifs) + pre_ifs, x, cn)
+            if isinstance(v, tuple):
+                rel_bad(v[0], f"`{rel}` of the copy: {v[1]}")
+            else:
+                txt = ' and '.join(sh(c) for c in list(g.ifs) + pre_ifs)[:90] or '<no filter>'
+                if not v(True, False) or not v(True, True):
+                    rel_bad('refute', f"`{rel}` of the copy is filtered by `{txt}`, which leaves out tasks OUTSIDE the source WBS: those "
+                                      f"links are dropped instead of being kept on the same outside task (expected `{x}.wbs != self or "
+                                      f"{x}.id in {self.mapvar}`)")
+                if not v(False, True):
+                    rel_bad('refute', f"`{rel}` of the copy is filtered by `{txt}`, which leaves out selected members: links among the "
+                                      f"copied tasks are dropped (expected `{x}.wbs != self or {x}.id in {self.mapvar}`)")
+                if v(False, False):
+                    rel_bad('refute', f"`{rel}` of the copy is filtered by `{txt}`, which lets a NON-selected member of the source through: "
+                                      f"`{sh(ident[2])[:40]}` raises KeyError / yields None for it instead of the link being left out "
+                                      f"(expected `{x}.wbs != self or {x}.id in {self.mapvar}`)")
+        for c in ([] if ident else list(g.ifs) + pre_ifs):
             for atom, pol in facts.split_conj(c, True):
                 txt = f"`{'' if pol else 'not '}{sh(atom)[:70]}`"
                 m = match("$k in $m", atom) or match("$k not in $m", atom)
@@ -2406,8 +2445,113 @@ class CloneAnalysis:
                               f"source raises KeyError / yields None instead of being left out")
         if rel_ok:
             self.site(f, st, f"{rel} rebuilt in source order from the relation of the same name" +
-                      (", filtered only by id in map" if has_in else ""), 'relations')
+                      (", outside tasks as themselves, members filtered only by id in map" if ident else
+                       ", filtered only by id in map" if has_in else ""), 'relations')
+            if ident:
+                self._identity_rels[rel] = st
+            elif rel in DEP_RELS:
+                self._lookup_rels[rel] = st
         return rel_ok
+
+    def _outside_test(self, e: ast.AST, x: str):
+        """e as a test on the linked task x -> 'EXT' (x is outside the source WBS) | 'INT' | 'NONE' (wbs None test) | None"""
+        pol = True
+        while isinstance(e, ast.UnaryOp) and isinstance(e.op, ast.Not):
+            e, pol = e.operand, not pol
+        return self._ext_test(e, pol, ast.Name(id=x, ctx=ast.Load()), self.f.self_name)
+
+    def _identity_element(self, L: Labeller, elt: ast.AST, x: str, st, rel: str):
+        """element `x if <x outside> else map[x.id]` (either branch order) -> (lookup, 'identity', lookup expr) | None (not this
+        form) | 'bad' (this form, verdict recorded)"""
+        if not isinstance(elt, ast.IfExp):
+            return None
+        t = self._outside_test(elt.test, x)
+        if t is None:
+            return None
+        f = self.f
+        if t == 'NONE':
+            self.refute(f, st, elt.test, f"`{rel}` of the copy decides between 'the task itself' and 'its copy' by `{src(elt.test)}`, a "
+                                         f"test of `wbs` against None: a detached task and a task of another WBS are both outside the "
+                                         f"source; the only test allowed is `{x}.wbs != self`", 'receivers')
+            return 'bad'
+        own, other = (elt.body, elt.orelse) if t == 'EXT' else (elt.orelse, elt.body)
+        lk = self._map_lookup(L, other)
+        if isinstance(own, ast.Name) and own.id == x and lk is not None and match(f"{x}.id", lk[0]):
+            return lk, 'identity', other
+        lk2 = self._map_lookup(L, own)
+        if isinstance(other, ast.Name) and other.id == x and lk2 is not None:
+            self.refute(f, st, elt, f"`{rel}` of the copy takes `{src(own)}` for tasks OUTSIDE the source WBS and the task itself for "
+                                    f"members (`{src(elt)[:70]}`): the branches are swapped - members are shared with the copy, outside "
+                                    f"tasks are looked up by id among the member clones", 'receivers')
+            return 'bad'
+        self.undecided(f, st, elt, f"element `{src(elt)[:70]}` of the rebuilt `{rel}` is not `x if x.wbs != self else map[x.id]`", 'receivers')
+        return 'bad'
+
+    def _keep_formula(self, L: Labeller, ifs, x: str, cn):
+        """conjunction of the comprehension filters as a function (outside: bool, in_map: bool) -> kept, built from not/and/or
+        over `<x outside>` tests and `x.id in <clone map>`; or ('refute'|'undecided', message) for an atom of another kind"""
+        def parse(e):
+            if isinstance(e, ast.UnaryOp) and isinstance(e.op, ast.Not):
+                g_ = parse(e.operand)
+                return g_ if isinstance(g_, tuple) else (lambda o, i, g_=g_: not g_(o, i))
+            if isinstance(e, ast.BoolOp):
+                gs = [parse(v_) for v_ in e.values]
+                for g_ in gs:
+                    if isinstance(g_, tuple):
+                        return g_
+                if isinstance(e.op, ast.And):
+                    return lambda o, i, gs=gs: all(g_(o, i) for g_ in gs)
+                return lambda o, i, gs=gs: any(g_(o, i) for g_ in gs)
+            t = self._outside_test(e, x)
+            if t == 'EXT':
+                return lambda o, i: o
+            if t == 'INT':
+                return lambda o, i: not o
+            if t == 'NONE':
+                return ('refute', f"the filter tests `{src(e)}` (wbs against None): detached tasks are outside the source WBS as well, "
+                                  f"links to them must be kept; the only owner test allowed is `{x}.wbs != self`")
+            m = match("$k in $m", e) or match("$k not in $m", e)
+            if m and L.is_map(m['m']) and match(f"{x}.id", m['k']):
+                pos = isinstance(e.ops[0], ast.In)
+                return lambda o, i, pos=pos: i == pos
+            if x in {n.id for n in ast.walk(e) if isinstance(n, ast.Name)}:
+                return ('refute', f"additionally filtered by `{src(e)[:70]}`: links are dropped (or kept) by something other than "
+                                  f"`{x}.wbs != self or {x}.id in {self.mapvar}`")
+            return ('undecided', f"unrecognised filter `{src(e)[:70]}`")
+        gs = [parse(c) for c in ifs]
+        for g_ in gs:
+            if isinstance(g_, tuple):
+                return g_
+        return lambda o, i: all(g_(o, i) for g_ in gs)
+
+    # ---------------------------------------------------------------- (g) outside link ends are handed over by identity (F39)
+    def _outside_identity(self):
+        """ids are unique inside ONE WBS only (C05): a link end outside the source WBS must reach the copy as itself, never through
+        a lookup keyed by its id in the map that holds the member clones"""
+        f = self.f
+        for F, node, rels, is_call in self.registrations:
+            role = '/'.join(rels) if rels else 'tasks'
+            what = "setdefault(<x>.id, <x>)" if is_call else "<map>[<x>.id] = <x>"
+            self.refute(F, node, f"{what} [outside {role} keyed by id in the clone map]",
+                        f"`{src(node)[:70]}` files a task from OUTSIDE the source WBS under its id in the map that holds the member clones, "
+                        f"and link ends are then looked up by id. Ids are unique inside one WBS only: an outside task whose id equals a "
+                        f"member's id resolves to that member's clone (or the link is lost), two outside tasks with one id collapse, and in "
+                        f"subtree() the id of a non-selected member can resolve to an outside task. Hand outside link ends to the copy as "
+                        f"themselves: `[x if x.wbs != self else map[x.id] for x in src.{rels[0] if rels else 'predecessors'} "
+                        f"if x.wbs != self or x.id in map]`")
+        for r in DEP_RELS:
+            if r in self._identity_rels:
+                self.site(f, self._identity_rels[r], f"{r}: outside tasks as themselves, `map[x.id]` only for members (x.wbs == self)")
+            elif r in self._lookup_rels:
+                if not self.registrations:
+                    st_ = self._lookup_rels[r]
+                    self.refute(f, st_, f"<map>[<x>.id] [{r}: link end not proven to be a member]",
+                                f"`{src(st_)[:80]}` looks EVERY link end up by id among the member clones: an outside task is either dropped "
+                                f"or - when its id equals a member's id - replaced by that member's clone; look up members only "
+                                f"(`x if x.wbs != self else map[x.id]`)")
+            elif not any(c in ('relations', 'receivers') and k in ('refute', 'undecided') for c, k, *_ in self.facts):
+                self.undecided(f, f.node, f"outside {r}", f"cannot see how the {r} of the copies are rebuilt: whether outside link ends are "
+                                                          f"handed over by identity is not decided")
 
     # ---------------------------------------------------------------- (e) assembly of the new WBS
     def _assembly(self):
